@@ -223,6 +223,13 @@ theorem C19_reported_basename (isFile : Str → Bool) (libs : List Str) (out : S
     | ok l' => exact absurd hr (hne l')
     | unresolved n => rw [hr] at h; cases h
 
+/-- The words the resolver hands to the matcher are non-empty and contain no whitespace —
+    in particular no line break, which is why `$`-before-newline of Python's `re` never
+    matters here. -/
+theorem C19_words_clean (out : Str) :
+    ∀ w ∈ listingWords out, w ≠ [] ∧ ∀ c ∈ w, isSpace c = false :=
+  listingWords_spec out
+
 /-- Header lines (`binary:`), as printed first by ldd on the BSDs, are ignored: a line ending
     in `:` contributes no word, whatever it contains. -/
 theorem C19_header_ignored (line rest : Str) (hl : ∀ c ∈ line, isLineBreak c = false)
